@@ -59,13 +59,13 @@ ANY_AGG_B = ("COVARIANCE", "CORRELATION", "L0", "L1", "L2", "LINF", "EQUAL")
 DOMAIN_ERRORS = (Exception,)
 C04_OPS = ("add_obs", "sort", "insert_chrono", "insert_at", "remove_list", "remove_obs", "remove_first",
            "remove_last", "extract", "span", "concat", "mod_n", "mod_pattern", "gt", "lt", "set_obs",
-           "fork_reverse", "fork_span", "edit_time", "slice", "pop_obs", "span_track", "sort_radix", "fork_concat", "fork_derived", "fork_simplify")
+           "fork_reverse", "fork_span", "edit_time", "slice", "pop_obs", "span_track", "sort_radix", "fork_concat", "fork_derived", "fork_simplify", "describe", "remove_by_time", "set_obs_list")
 # steps a session may take whose track holds the same Obs object at two positions (the result of
 # t + t and the like, shared by design): everything that neither creates features nor edits an Obs
 DUP_SAFE_OPS = ("sort", "sort_radix", "remove_list", "remove_obs", "remove_first", "remove_last", "pop_obs",
                 "extract", "slice", "span", "span_track", "gt", "lt", "mod_n", "mod_pattern", "concat",
                 "insert_at", "add_obs", "insert_chrono", "set_obs", "fork_concat", "new_track", "fork_derived",
-                "fork_simplify")
+                "fork_simplify", "describe", "remove_by_time", "set_obs_list")
 # what a session may do whose observation rows carry values its track does not list (tracks
 # produced by the simplifier): the feature computations of C17, and everything that only moves Obs around
 LOOSE_OK_OPS = DUP_SAFE_OPS + ("abs_curv", "speed", "speed_direct", "ds", "remove")
@@ -335,6 +335,8 @@ class TrackWorld(World):
         return st
 
     def _g_setitem_func(self, r, m):
+        if r.random() < 0.12:
+            return {"name": "a", "coord": r.choice(["x", "y"]), "func": "affine", "base": self._uval()}
         return self._callable_fault(r, {"name": self._pick_name(r, m), "func": r.choice(["affine", "next_x"]),
                                         "base": self._uval()})
 
@@ -540,6 +542,15 @@ class TrackWorld(World):
     def _g_fork_simplify(self, r, m):
         return {"to": r.randrange(self.cfg["sessions"]), "tol": r.choice([0.001, 0.5, 5.0]), "mode": r.choice([1, 1, 2])}
 
+    def _g_describe(self, r, m):
+        return {"how": r.choice(["str", "summary", "print", "len", "duration"])}
+
+    def _g_remove_by_time(self, r, m):
+        return {"idx": [r.randrange(64) for _ in range(r.choice([1, 1, 2, 3]))]}
+
+    def _g_set_obs_list(self, r, m):
+        return {"obs": [self._gen_obs(r) for _ in range(r.choice([0, 1, 2, 5]))]}
+
     def _g_span_track(self, r, m):
         return {"other": r.randrange(self.cfg["sessions"])}
 
@@ -568,7 +579,7 @@ class TrackWorld(World):
 
     def _g_transform(self, r, m):
         self.rtagc = getattr(self, "rtagc", 0) + 300
-        return {"kind": r.choice(["shift_default", "shift_default", "shift_to", "translate", "scale"]),
+        return {"kind": r.choice(["shift_default", "shift_default", "shift_to", "translate", "scale", "rotate"]),
                 "i": r.randrange(64), "tx": r.choice([1.0, -2.5, 100.0]), "ty": r.choice([0.0, 3.0]),
                 "h": r.choice([2.0, 0.5, 3.0]), "tag0": self.rtagc - 300}
 
@@ -672,6 +683,15 @@ class TrackWorld(World):
             if gt != [list(o["t"]) for o in m["obs"]]:
                 return self.fail(prop, "table.timestamp", "%s: getTimestamps() of session %d" % (where, s),
                                  [list(o["t"]) for o in m["obs"]], gt)
+            absT = [abs_seconds(o["t"]) for o in m["obs"]]
+            gT = list(t.getT())
+            if len(gT) != n or any(abs(a - b) > 1e-6 for a, b in zip(gT, absT)):
+                return self.fail(prop, "table.timestamp", "%s: getT() (seconds since 1970) of session %d" % (where, s),
+                                 absT, gT)
+            strictly = all(absT[i] < absT[i + 1] for i in range(n - 1))
+            if bool(t.isSorted()) != strictly:
+                return self.fail(prop, "table.sequence", "%s: isSorted() of session %d (strictly increasing "
+                                 "timestamps)" % (where, s), strictly, t.isSorted())
             if not (leq(list(t.getX()), [o["x"] for o in m["obs"]]) and leq(list(t.getY()), [o["y"] for o in m["obs"]])):
                 return self.fail(prop, "table.position", "%s: getX() / getY() of session %d" % (where, s),
                                  [[o["x"], o["y"]] for o in m["obs"]], [list(t.getX()), list(t.getY())])
@@ -929,6 +949,20 @@ class TrackWorld(World):
 
     def op_setitem_func(self, st):
         t, m = self._sess(st)
+        if st.get("coord") and len(m["obs"]):
+            # track["x"] = function / track["y"] = function: the coordinate is assigned, no feature is created
+            c = st["coord"]
+            base = st["base"] % 97
+            f = lambda track, i: base + 0.5 * i          # noqa: E731
+            _, exc = self.call(t.__setitem__, c, f)
+            if exc is not None:
+                return self._unexpected("C01", exc, "track[%r] = function" % c)
+            for i, o in enumerate(m["obs"]):
+                o[c] = base + 0.5 * i
+            m["geo"] += 1
+            self.probe("coordinate_assigned_from_a_function")
+            self._check_all("C01", "track[%r] = function" % c)
+            return
         if len(m["obs"]) == 0 or st["name"] in RESERVED:
             raise Skip()
         f, exp = self._func(st, m)
@@ -1439,8 +1473,8 @@ class TrackWorld(World):
             col = self._col(m, st["a"])
             if any(not isinstance(v, float) or v != v or abs(v) > 1e8 for v in col):
                 raise Skip()            # coordinates stay on the planet (squares of 1e200 overflow: not C17)
-            out = "x"
-            text = "x=%s" % st["a"]
+            out = "y" if (st.get("lit") == 3) else "x"
+            text = "%s=%s" % (out, st["a"])
             exp = list(col)
             ntemp = 0
             self.probe("coordinate_assigned_from_stored_feature")
@@ -1474,9 +1508,9 @@ class TrackWorld(World):
             rv, exc = self.call(t.operate, text)
         if exc is not None:
             return self._unexpected("C01", exc, "expression %r" % text)
-        if out == "x":
+        if out in ("x", "y"):
             for o, v in zip(m["obs"], exp):
-                o["x"] = v
+                o[out] = v
             m["geo"] += 1
             self.probe("expression_assigns_coordinate")
         else:
@@ -1989,6 +2023,75 @@ class TrackWorld(World):
             self.probe("slice_with_negative_step")
         self._derive(st, "t[%s:%s:%s]" % (st.get("i"), st.get("j"), st.get("k")), lambda: t[sl], exp, m)
 
+    def op_describe(self, st):
+        """Printing and summarising a track are read-only."""
+        t, m = self._sess(st)
+        how = st["how"]
+        if how == "str":
+            _, exc = self.call(str, t)
+        elif how == "summary":
+            _, exc = self.call(t.summary)
+        elif how == "print":
+            _, exc = self.call(t.print)
+        elif how == "len":
+            rv, exc = self.call(len, t)
+            if exc is None and rv != len(m["obs"]):
+                self.fail("C04", "table.size", "len(track)", len(m["obs"]), rv)
+                return
+        else:
+            if len(m["obs"]) == 0:
+                raise Skip()
+            rv, exc = self.call(t.duration)
+            exp = abs_seconds(m["obs"][-1]["t"]) - abs_seconds(m["obs"][0]["t"])
+            if exc is None and abs(rv - exp) > 1e-6:
+                self.fail("C04", "table.timestamp", "duration() = last minus first timestamp", exp, rv)
+                return
+        if exc is not None and not isinstance(exc, Exception):
+            return self._unexpected("C04", exc, "describing the track (%s)" % how)
+        self._check_all("C04", "describing the track (%s): read-only" % how)
+
+    def op_remove_by_time(self, st):
+        """removeObsList with timestamps instead of indices: for every timestamp of the list the
+        first observation carrying it goes (documented alternative of the index form)."""
+        from tracklib.core import ObsTime
+        t, m = self._sess(st)
+        n = len(m["obs"])
+        if n == 0:
+            raise Skip()
+        stamps = []
+        for i in st["idx"]:
+            tf = tuple(m["obs"][i % n]["t"])
+            if tf not in stamps:
+                stamps.append(tf)
+        left = list(m["obs"])
+        for tf in sorted(stamps):
+            for k, o in enumerate(left):
+                if tuple(o["t"]) == tf:
+                    del left[k]
+                    break
+        rv, exc = self.call(t.removeObsList, [ObsTime(*tf) for tf in stamps])
+        if exc is not None:
+            return self._unexpected("C04", exc, "removeObsList(timestamps)")
+        m["obs"] = left
+        m["geo"] += 1
+        if rv is not None and rv != len(stamps):
+            self.fail("C04", "remove.count", "removeObsList(timestamps): reported number of removed observations",
+                      len(stamps), rv)
+            return
+        self.probe("removal_by_timestamp")
+        self._check_all("C04", "removeObsList(timestamps)")
+
+    def op_set_obs_list(self, st):
+        """setObsList: the whole sequence is replaced."""
+        t, m = self._sess(st)
+        self._no_feats(m)
+        _, exc = self.call(t.setObsList, [self._mk_obs(o) for o in st["obs"]])
+        if exc is not None:
+            return self._unexpected("C04", exc, "setObsList")
+        m["obs"] = [self._mobs(o) for o in st["obs"]]
+        m["geo"] += 1
+        self._check_all("C04", "setObsList")
+
     def op_pop_obs(self, st):
         t, m = self._sess(st)
         n = len(m["obs"])
@@ -2233,6 +2336,8 @@ class TrackWorld(World):
             _, exc = self.call(t.shiftTo, st["i"] % n, ENUCoords(st["tx"], st["ty"], 0))
         elif k == "translate":
             _, exc = self.call(t.translate, st["tx"], st["ty"])
+        elif k == "rotate":
+            _, exc = self.call(t.rotate, 0.25 * st["h"])
         else:
             _, exc = self.call(t.scale, st["h"])
         if exc is not None:
